@@ -274,6 +274,18 @@ def load_table():
         return json.load(fh)
 
 
+def _target_of(e):
+    return e.rpartition("@")[2] if "@" in e else None
+
+
+def _known_target(tab, e):
+    """an operation on a field that did not exist on the reviewed tree (a new counter, a new cache) is new state, not a new way of
+    touching the protocol state the properties are about: its *misuse* is caught by the rules on the old state (e.g. a cached
+    clone of a stream's sender by R08.2)"""
+    tg = _target_of(e)
+    return tg is None or tg == "?" or tg in tab.get("targets", ()) or tg.startswith(("io<", "chan<", "lock<"))
+
+
 def check_regions(ctx, rule, owners, arms=()):
     """obligation per region: its effects are a subset of the reviewed table"""
     tab = load_table()
@@ -289,7 +301,7 @@ def check_regions(ctx, rule, owners, arms=()):
         if owner not in tab["owners"]:
             ctx.missing(rule, "effect table entry for %s" % owner)
             continue
-        new = sorted(cur - ref)
+        new = sorted(e for e in cur - ref if _known_target(tab, e))
         ctx.ob(rule, "%s|effects-within-reviewed-table" % owner, not new, "", "%d effects on shared state, all in the reviewed table" % len(cur) if not new else
                "%s now performs `%s` — an operation on shared protocol state that this function did not perform on the reviewed tree (table: rules/effects_baseline.json); it must be shown not to break the property "
                "before the table is extended" % (owner.split("::")[-1], "`, `".join(new[:4])))
@@ -307,7 +319,7 @@ def check_regions(ctx, rule, owners, arms=()):
             s_, own, allr = regions[arm]
             cur = ef.of_region(body, own)
             ref = set(tab["arms"].get(arm, []))
-            new = sorted(cur - ref)
+            new = sorted(e for e in cur - ref if _known_target(tab, e))
             ctx.ob(rule, "handle_frame[%s]|effects-within-reviewed-table" % arm, not new, "", "%d effects, all in the reviewed table" % len(cur) if not new else
                    "the %s arm of the frame dispatcher now performs `%s`, which it did not on the reviewed tree: a received %s frame has a new effect on shared state" % (arm, "`, `".join(new[:4]), arm))
 
@@ -341,6 +353,12 @@ def generate(ctx, owners, arms, fns):
         if arm in regions:
             s_, own, allr = regions[arm]
             out["arms"][arm] = sorted(ef.of_region(body, own))
+    tg = set()
+    for v in list(out["owners"].values()) + list(out["arms"].values()):
+        for e in v:
+            if _target_of(e):
+                tg.add(_target_of(e))
+    out["targets"] = sorted(tg)
     for fn in fns:
         out["callers"][fn] = sorted({ctx.P.owner(e.src) for e in ctx.cg.callers(fn, kinds=("call", "spawn")) if ctx.P.owner(e.src) != fn})
     return out
